@@ -201,8 +201,12 @@ def streams(seed, tier):
                 cases.append(sx_str([prof, init, ops]))
                 for op in ops[:9]:
                     cases.append(sx_str([prof, init, [op, [0], [1]]]))
-    out.append(Stream("far-positions", "stack", "stack.check", cases,
-                      "every positional operation at positions 2^31, 2^32-1, 2^32, 2^32+1, 2^63-1, 2^63, 2^64-2, 2^64-1 on stacks of 0 / 1 / 3 elements: absent, never a failure, contents unchanged"))
+    st_far = Stream("far-positions", "stack", "stack.check", cases,
+                    "every positional operation at positions 2^31, 2^32-1, 2^32, 2^32+1, 2^63-1, 2^63, 2^64-2, 2^64-1 on stacks of 0 / 1 / 3 elements: absent, never a failure, contents unchanged; "
+                    "each call returns at once (a worker that does not answer within 15 s counts as a failure)")
+    st_far.timeout = 15
+    st_far.per_shard = 12
+    out.append(st_far)
     # long stacks: more elements than any print / buffer limit someone might introduce
     cases = []
     for k, n in enumerate([999, 1000, 1001, 1024, 1025, 2500, 4097] if tier != "quick" else [1000, 1001, 2500]):
